@@ -830,7 +830,6 @@ func checkClientMapping(p *Prog, r *Roles, res *Result, f *ssa.Function) {
 	}
 }
 
-
 // checkQueueDiscipline: in the repair queue's push, every path to a return makes the new node the tail, and on the
 // paths where an old tail exists links it to the new node first.
 func checkQueueDiscipline(p *Prog, res *Result) {
